@@ -294,6 +294,14 @@ def run_harness(driver, scens, tag, timeout=600):
                 cur["done"] = True
         if rc != 0:
             errors.append((i, rc, err[-2000:]))
+            # the driver process died (abort, double free, stack overflow, watchdog): the first scenario of this shard
+            # without a completed result is the one it died in
+            for sc_ in shards[i]:
+                r_ = res.get(sc_.sid)
+                if r_ is None or not r_.get("done"):
+                    res[sc_.sid] = {"adr": None, "ctor": {}, "obs": [], "done": False, "error": None, "sched": None,
+                                    "bobs": None, "crashed": f"driver process ended with status {rc} while running this scenario"}
+                    break
     return res, errors
 
 
